@@ -164,6 +164,10 @@ func (m *Manager) Put(key, value []byte) error {
 		}
 		seqNum, err := currentWAL.Append(wal.OpTypePut, key, value)
 		if err != nil {
+			if err == wal.ErrWALClosed && !m.closed.Load() {
+				// The rotation finished between getWAL and Append: retry on the new WAL
+				return wal.ErrWALRotating
+			}
 			if err != wal.ErrWALRotating {
 				m.stats.TrackError("wal_append_error")
 				return fmt.Errorf("failed to append to WAL: %w", err)
@@ -264,6 +268,10 @@ func (m *Manager) Delete(key []byte) error {
 		}
 		seqNum, err := currentWAL.Append(wal.OpTypeDelete, key, nil)
 		if err != nil {
+			if err == wal.ErrWALClosed && !m.closed.Load() {
+				// The rotation finished between getWAL and Append: retry on the new WAL
+				return wal.ErrWALRotating
+			}
 			if err != wal.ErrWALRotating {
 				m.stats.TrackError("wal_append_error")
 				return fmt.Errorf("failed to append to WAL: %w", err)
@@ -385,6 +393,10 @@ func (m *Manager) ApplyBatch(entries []*wal.Entry) error {
 		}
 		startSeqNum, err := currentWAL.AppendBatch(entries)
 		if err != nil {
+			if err == wal.ErrWALClosed && !m.closed.Load() {
+				// The rotation finished between getWAL and AppendBatch: retry on the new WAL
+				return wal.ErrWALRotating
+			}
 			if err != wal.ErrWALRotating {
 				m.stats.TrackError("wal_append_batch_error")
 				return fmt.Errorf("failed to append batch to WAL: %w", err)
